@@ -208,6 +208,9 @@ func linearB(v ssa.Value, depth int) linform {
 	switch x := v.(type) {
 	case *ssa.Const:
 		if x.Value != nil && x.Value.Kind() == constant.Int {
+			if !constFitsInt64(x) {
+				return linform{atoms: map[string]int{"const:" + x.Value.ExactString(): 1}, ok: true}
+			}
 			return linform{atoms: map[string]int{}, k: constInt64(x), ok: true}
 		}
 	case *ssa.BinOp:
@@ -330,6 +333,15 @@ func batom(v ssa.Value, depth int) string {
 		return batom(x.X, depth+1)
 	case *ssa.Slice:
 		return batom(x.X, depth+1) + "[:]"
+	case *ssa.BinOp:
+		// a product, quotient, remainder, shift or mask: named by its operands, so that two
+		// occurrences of the same computation are the same atom and different ones are not
+		if depth < 5 {
+			switch x.Op {
+			case token.MUL, token.QUO, token.REM, token.SHL, token.SHR, token.AND, token.OR, token.XOR, token.AND_NOT:
+				return "(" + linearB(x.X, depth+3).String() + x.Op.String() + linearB(x.Y, depth+3).String() + ")"
+			}
+		}
 	}
 	return fmt.Sprintf("?%T", v)
 }
@@ -497,7 +509,11 @@ func provenLowerLin(at ssa.Instruction, e linform, known map[string]int64) (int6
 
 // provenUpper is the mirror image of provenLower: the best constant upper bound of expr at at.
 func provenUpper(at ssa.Instruction, expr ssa.Value) (int64, bool) {
-	e := linearB(expr, 0)
+	return provenUpperForm(at, linearB(expr, 0))
+}
+
+// provenUpperForm is provenUpper for a linear form (e.g. the difference index - len(x)).
+func provenUpperForm(at ssa.Instruction, e linform) (int64, bool) {
 	if !e.ok {
 		return 0, false
 	}
